@@ -16,6 +16,7 @@ mod emit;
 mod eprops;
 mod gen;
 mod replay;
+mod shrink;
 mod vchecks;
 mod vprops;
 
@@ -61,7 +62,11 @@ fn main() {
                 i += 1;
             }
             let rc = RunCtx::new(&prop, tier, seed_from_env());
-            let out = dispatch(&rc);
+            let mut out = dispatch(&rc);
+            // regression tier: replays of repaired defects (seconds)
+            let (rv, n) = replay::regressions(&rc);
+            out.coverage["regression_replays_run"] = serde_json::json!(n);
+            out.violations.extend(rv);
             finish(&rc, out);
         }
         "replay" if args.len() >= 3 => replay::replay(&args[2]),
